@@ -301,7 +301,7 @@ def generate(tier, rng):
     # 2. the same with matrix operands, ** included, transposes and unary operators as decorations
     mshapes = [list(s) for n in (1, 2) for s in itertools.product(OPS16, repeat=n)]
     mthree = [list(s) for s in itertools.product(OPS16, repeat=3)]
-    mthree = rng.sample(mthree, 1500 if thorough else 300)
+    mthree = rng.sample(mthree, 1500 if thorough else 200)
     if not thorough:
         mshapes = [s for s in mshapes if len(s) == 1] + rng.sample([s for s in mshapes if len(s) == 2], 100)
     for ops in mshapes + mthree:
@@ -309,7 +309,7 @@ def generate(tier, rng):
         f, ok = typed_sequence(ops, rng, flavour, unary_p=0.3)
         items.append((f, dict(stream="enum-matrix", nops=len(ops), typed=int(ok), flavour=flavour)))
     # 3. chains of 4..12 operators
-    for _ in range(6000 if thorough else 300):
+    for _ in range(6000 if thorough else 240):
         n = rng.randint(4, 12)
         flavour = "scalar" if rng.random() < 0.7 else "matrix"
         r = rng.random()
@@ -332,7 +332,7 @@ def generate(tier, rng):
         tags.update(nops=len(f) // 2, flavour=flavour)
         items.append((f, tags))
     # 4. explicit parentheses in non-default positions
-    for _ in range(6000 if thorough else 300):
+    for _ in range(6000 if thorough else 240):
         flavour = "scalar" if rng.random() < 0.75 else "matrix"
         depth = 1 if rng.random() < 0.6 else 2
         f = gen_formula("bool" if rng.random() < 0.4 else "num", rng.randint(1, 3), depth, rng, flavour)
